@@ -60,6 +60,9 @@ var c14Features = []string{
 	"x = 7\nq = &(-x)\n*q = 99\nrd(\"neg\", -x)\nr = &(x * 1)\n*r = 55\nrd(\"x\", [x, x * 1, 6 + 1])\ny = 10\nz = &(y++)\n*z = 0\nrd(\"y\", [y, 10 + 1])",
 	"func fib(n) { if n < 2 { return n }\n return fib(n - 1) + fib(n - 2) }\nrd(\"fib\", fib(12))",
 	"func mk(s) { var c = s\n return func() { c++\n return c } }\na = mk(10)\nb = mk(20)\nrd(\"r\", [a(), b(), a(), a(), b()])",
+	"s = 0\nfor i = 0; i < 300; i++ { s = s + 5000 + i * 256 }\nrd(\"s\", s)\nrd(\"m\", [70000 * 3, 1 << 40, -5000 - 1, 123456 % 100000, 5000 | 3, 4096 + 4096, ^5000, 9000 - 1])",
+	"m = {\"a\": 1, \"b\": 2, \"c\": 3, \"d\": 4}\nn = 0\nfor k, v in m { m[k + \"x\"] = v\n n++ }\nrd(\"n\", n)\nrd(\"len\", len(m))",
+	"m = {}\nfor i = 0; i < 12; i++ { m[toString(i)] = i }\nn = 0\nfor k in m { for j = 0; j < 4; j++ { m[k + \"-\" + toString(j)] = j }\n n++ }\nrd(\"n\", n)\nrd(\"len\", len(m))",
 	"delete(\"zz\")\nm = {\"a\": 1, \"b\": 2}\ndelete(m, \"a\")\nrd(\"m\", m)\nrd(\"k\", len(keys(m)))",
 }
 
@@ -195,7 +198,7 @@ func init() {
 			}
 			return fw.Plan{
 				Level: "exploration",
-				Rule: "each program (hand-written feature programs aimed at per-node runtime data: named/anonymous calls, defer, ++/--, small-int arithmetic, every literal kind, import with reassignment of imported members, modules, typed literals, make(type); PRNG-generated programs of all profiles; the repository's own goroutine-free scripts) is parsed ONCE; phase seq: the tree is dumped by reflection, run 3 times in fresh equal environments and dumped after each run; phase conc (race build): a solo run of a separately parsed tree is the reference, then 8 goroutines run the ONE shared tree at the same time on 8 fresh environments behind a barrier. Required: dumps byte-identical, every run's value/error text/probe trace equal to the solo run, canaries on the shared ++ literal, the small-int cache, the package tables and import isolation after each case, no race report. Non-trivial = parsed and produced at least one probe event or a non-nil value; distinct = distinct source text.",
+				Rule: "each program (hand-written feature programs aimed at per-node runtime data: named/anonymous calls, defer, ++/--, small-int and large-int arithmetic, every literal kind, maps that grow while they are ranged over, import with reassignment of imported members, modules, typed literals, make(type); PRNG-generated programs of all profiles; the repository's own goroutine-free scripts) is parsed ONCE; phase seq: the tree is dumped by reflection, run 3 times (feature programs 8 times) in fresh equal environments and dumped after each run; phase conc (race build): a solo run of a separately parsed tree is the reference, then 8 goroutines run the ONE shared tree at the same time on 8 fresh environments behind a barrier. Required: dumps byte-identical, every run's value/error text/probe trace equal to the solo run, canaries on the shared ++ literal, the small-int cache, the package tables and import isolation after each case, no race report. Non-trivial = parsed and produced at least one probe event or a non-nil value; distinct = distinct source text.",
 				Assumptions: []string{"corpus scripts that use import, goroutines, channels, map iteration, keys(), printing or time are outside the repeatability domain and are skipped", "a run cut by the execution watchdog is inconclusive, never compared"},
 				Phases: []fw.Phase{
 					{Name: "seq", Cases: nSeq, Chunk: 100, TimeoutS: 900},
@@ -227,7 +230,11 @@ func init() {
 			var ref c14Obs
 			nruns := 0
 			if c.Phase == "seq" {
-				for i := 0; i < 3; i++ {
+				reruns := 3
+				if kind == "feature" {
+					reruns = 8
+				}
+				for i := 0; i < reruns; i++ {
 					o := c14Observe(realrun.RunTreeWatchdog(tree, wd, true))
 					if o.timeout {
 						c.Excluded("watchdog")
